@@ -295,6 +295,40 @@ class C14(Prop):
             sessions.close_loop(loop)
 
     @staticmethod
+    def violation_scenario(transport):
+        import json as _json
+        from harness import sessions
+        from aiorpcx import session
+        loop = sessions.new_loop()
+        try:
+            class S(session.RPCSession):
+                max_errors = 1000
+                cost_hard_limit = 0          # never refuse: this scenario is about the accounting
+                cost_decay_per_sec = 0
+
+                async def handle_request(self, request):
+                    return 1
+            proto, ft, s = sessions.attach(S, 'server', transport)
+            msgs = [b'{not json', b'\xff\xfe', b'[]', b'5', b'{"jsonrpc":"2.0","method":5,"id":1}', b'{"jsonrpc":"2.0","method":"m","params":7,"id":2}',
+                    b'{"jsonrpc":"2.0","result":1,"id":77}', b'{"jsonrpc":"2.0","error":{"code":1,"message":"x"},"id":null}',
+                    b'[{"jsonrpc":"2.0","result":1,"id":5},{"jsonrpc":"2.0","result":2,"id":6}]',
+                    b'{"jsonrpc":"2.0","result":1,"error":{"code":1,"message":"x"},"id":99}', b'{"jsonrpc":"2.0","id":98}',
+                    b'[1,2,3]', b'{"jsonrpc":"2.0","result":1,"id":"never"}']
+
+            async def main():
+                await sessions.settle(3)
+                steps = []
+                for m in msgs:
+                    e0, c0 = s.errors, s.cost
+                    proto.data_received(m + b'\n')
+                    await asyncio.sleep(0.05)
+                    steps.append({'msg': m.decode('latin-1'), 'd_errors': s.errors - e0, 'd_cost': s.cost - c0})
+                return {'steps': steps, 'error_base_cost': s.error_base_cost}
+            return loop.run_until_complete(main())
+        finally:
+            sessions.close_loop(loop)
+
+    @staticmethod
     def refusal_oracle(case, obs):
         if obs['ran']:
             return f"a handler ran although the session cost had reached the hard limit: {obs['ran']}"
@@ -411,6 +445,21 @@ class C14(Prop):
                     if cl:
                         out.append(Failure(rcase, robs, cl + ' (the request was queued at the limiter when the cost crossed the limit)'))
         ctx['notes'].append(f'refusal at the hard limit on a real RPCSession: {nref} scenarios (request, notification, batches; both transports)')
+        # every protocol violation the peer commits is counted and charged - also the ones for which there is nothing to reply
+        # (violations inside responses: to a request never sent, a diagnostic error under id null, an unsolicited response
+        # batch, a malformed response under an unknown id)
+        nv = 0
+        for transport in ('rs', 'us'):
+            vobs = self.violation_scenario(transport)
+            for v in vobs['steps']:
+                nv += 1
+                ctx['extra_evals'] += 1
+                if v['d_errors'] != 1 or v['d_cost'] < vobs['error_base_cost'] * (1 - 1e-9):
+                    out.append(Failure({'violation': True, 'transport': transport, 'message': v['msg']}, v,
+                                       f"a protocol violation raised the error count by {v['d_errors']} and the cost by {v['d_cost']:.3f}: "
+                                       f"every protocol violation counts as one error and costs at least the base error cost ({vobs['error_base_cost']})"))
+                    break
+        ctx['notes'].append(f'protocol violations of every kind (with and without a reply) through a real RPCSession: {nv} messages, each counted and charged')
         sizes = [0, 1, 100, 5000, 100000] + [rng.randrange(0, 200000) for _ in range(10)]
         for n in sizes:
             case = {'kind': 'message_session_send', 'cmd': 'ping', 'payload_len': n}
